@@ -61,14 +61,17 @@ JudgeUnclock(e) ==
 
 JudgeNext(e) ==
   LET D == SeqToSet(e.days)
-      wd == Weekday(e.zone, e.now)
-      k == NextRunK(wd, LocalMin(e.zone, e.now), 60 * ClockHH(e.start) + ClockMM(e.start), D)
-      want == IF k = 0 THEN <<0>> ELSE IF k = 1 THEN <<1>> ELSE <<2, NextRunDay(wd, k)>>
-      got == DayTerm(e.text)
-  IN [why |-> Clause(got = want, "C13:day-term")
-              \o Clause(D = {} \/ Len(got) < 2 \/ got[2] \in D, "C13:named-weekday-selected"),
-      tag |-> IF D = {} THEN "next-nodays" ELSE IF k = 0 THEN "next-today" ELSE IF k = 1 THEN "next-tomorrow"
-              ELSE IF k = 7 THEN "next-week-ahead" ELSE "next-weekday"]
+      hm == ParseClock(e.start)
+  IN IF hm = <<>> THEN [why |-> <<>>, tag |-> "next-start-spelling-open"]
+     ELSE
+     LET wd == Weekday(e.zone, e.now)
+         k == NextRunK(wd, LocalMin(e.zone, e.now), 60 * hm[1] + hm[2], D)
+         want == IF k = 0 THEN <<0>> ELSE IF k = 1 THEN <<1>> ELSE <<2, NextRunDay(wd, k)>>
+         got == DayTerm(e.text)
+     IN [why |-> Clause(got = want, "C13:day-term")
+                 \o Clause(D = {} \/ Len(got) < 2 \/ got[2] \in D, "C13:named-weekday-selected"),
+         tag |-> (IF D = {} THEN "next-nodays" ELSE IF k = 0 THEN "next-today" ELSE IF k = 1 THEN "next-tomorrow"
+                  ELSE IF k = 7 THEN "next-week-ahead" ELSE "next-weekday") \o (IF Len(e.start) # 5 THEN "-short-spelling" ELSE "")]
 
 Judge(e) ==
   CASE e.ev = "Mask" -> JudgeMask(e)
